@@ -24,7 +24,8 @@ use crate::verif_model::Arc;
 use crate::instruction::verif_gate::*;
 /// each harness declares only the instruction kinds of its own trees (besides constants)
 fn declare(kinds: u32) {
-    scalar_ops_only();
+    allow_binops(b(crate::BinOperator::BitwiseAnd) | b(crate::BinOperator::Subtract));
+    allow_unops(u(crate::unary_operator::UnaryOperator::UnaryMinus) | u(crate::unary_operator::UnaryOperator::Not) | u(crate::unary_operator::UnaryOperator::Indirection) | u(crate::unary_operator::UnaryOperator::Return));
     allow_mask((1 << K_VARIABLE) | kinds);
 }
 fn iws(i: Instruction) -> InstructionWithStr {
